@@ -573,7 +573,85 @@ def configs(tier):
     if tier == "thorough":
         for seed in range(100, 140):
             cfgs.append(dict(model=f"randomfree:{seed}", max_order=3, _timeout_s=900))
-    return [("vf.props.secondq", "c07", c) for c in cfgs]
+    jobs = [("vf.props.secondq", "c07", c) for c in cfgs]
+    jobs += [("vf.props.secondq", "c07_accepted", dict(which=wh, _job="accepted", _timeout_s=600)) for wh in ("wildcard_mask", "docs_elimination_rules", "generic_hermitian_operators")]
+    return jobs
+
+
+def c07_accepted(cfg):
+    """Valid operator-valued inputs in forms the symbolic Fock evaluator cannot denote (wildcard powers in elimination rules, generic
+    Hermitian operators): the library must accept them and return the value of an equivalent input written without the special form.
+    Concrete comparison of expressions (number-ordered difference simplifies to zero), not a solver query."""
+    from pymablock import block_diagonalize
+    from pymablock.number_ordered_form import NumberOrderedForm
+
+    rec = Rec("C07", cfg)
+    which = cfg["which"]
+    a, b = BosonOp("a"), BosonOp("b")
+    w, wb, D, g = sympy.symbols("omega omega_b Delta g", positive=True)
+    k, m_ = sympy.symbols("k m", integer=True, positive=True)
+    n_ = sympy.Symbol("n", integer=True, nonnegative=True)
+    Na, Nb = Dagger(a) * a, Dagger(b) * b
+    sig = f"accepted:{which}"
+    requests = [(0, (0, 0, 1)), (0, (0, 0, 2)), (1, (0, 0, 1)), (1, (0, 0, 2)), (2, (0, 0, 2))]  # the matrix is one block: its elements are 2x2 operator matrices
+
+    def same(x, y):
+        x, y = (sympy.Matrix([[v]]) if not isinstance(v, sympy.MatrixBase) else v for v in (sympy.sympify(x), sympy.sympify(y)))
+        if x.shape != y.shape:
+            return False
+        for u, v in zip(x, y):
+            diff = NumberOrderedForm.from_expr(sympy.sympify(u)) - NumberOrderedForm.from_expr(sympy.sympify(v))
+            if any(sympy.simplify(c) != 0 for c in diff.terms.values()):
+                return False
+        return True
+
+    try:
+        if which in ("wildcard_mask", "docs_elimination_rules"):
+            if which == "wildcard_mask":
+                H0 = sympy.diag(w * Na + D, w * Na)
+                Hp = sympy.Matrix([[0, a + a**2], [Dagger(a) + Dagger(a) ** 2, 0]])
+                special = sympy.Matrix([[0, a**k], [Dagger(a) ** m_, 0]])  # the same rule written with two different wildcard symbols
+                plain = sympy.Matrix([[0, a + a**2 + a**3 + a**4], [Dagger(a) + Dagger(a) ** 2 + Dagger(a) ** 3 + Dagger(a) ** 4, 0]])
+            else:
+                # the (symmetric) elimination rules of docs/source/second_quantization.md
+                H0 = sympy.diag(w * Na + wb * Nb + D, w * Na + wb * Nb)
+                Hp = sympy.Matrix([[a + Dagger(a), a**3 + a * (1 + Nb)], [Dagger(a) ** 3 + (1 + Nb) * Dagger(a), a**2 + Dagger(a) ** 2 + Nb]])
+                special = sympy.Matrix([[0, a**3 + b**2], [Dagger(a) ** 3 + Dagger(b) ** 2, a ** (2 + n_) + Dagger(a) ** (2 + n_)]])
+                plain = sympy.Matrix([[0, a**3 + b**2], [Dagger(a) ** 3 + Dagger(b) ** 2, sum((a**p + Dagger(a) ** p for p in range(2, 7)), sympy.S.Zero)]])
+            out_s = block_diagonalize([H0, Hp], fully_diagonalize=special, symbols=[g])
+            out_p = block_diagonalize([H0, Hp], fully_diagonalize=plain, symbols=[g])
+            pairs = [(f"{NAMES_[wq]}{idx}", out_s[wq][idx], out_p[wq][idx]) for wq, idx in requests]
+        elif which == "generic_hermitian_operators":
+            from sympy.physics.quantum.operator import HermitianOperator
+
+            A, B = HermitianOperator("A"), HermitianOperator("B")
+            x = sympy.Symbol("x", real=True)
+            H = sympy.diag(-1, 1) + x * sympy.Matrix([[A + B, A], [A, -B]])
+            out = block_diagonalize(H, subspace_indices=[0, 1], symbols=[x])
+            pairs = [("H_tilde(0,0,1)", out[0][0, 0, 1], sympy.Matrix([[x * (A + B)]])), ("H_tilde(0,0,2)", out[0][0, 0, 2], sympy.Matrix([[-(x**2) * A * A / 2]])),
+                     ("H_tilde(1,1,2)", out[0][1, 1, 2], sympy.Matrix([[x**2 * A * A / 2]]))]
+            same = lambda u, v: all(sympy.expand(p - q) == 0 for p, q in zip(sympy.Matrix(u), sympy.Matrix(v)))  # noqa: E731
+        else:
+            raise KeyError(which)
+    except KeyError:
+        raise
+    except Exception as e:  # noqa: BLE001
+        from .herm import library_exception_info
+
+        rec.direct_violation("library rejected a valid operator-valued input", sig + f":raised-{type(e).__name__}",
+                             {"exception": f"{type(e).__name__}: {e}"[:300], "where": library_exception_info(e, pure_inputs=True)[1]}, reproduced=True)
+        return rec
+    bad = [nm for nm, u, v in pairs if not same(u, v)]
+    if bad:
+        rec.direct_violation("result differs from the equivalent input written plainly", sig + ":value", {"elements": bad}, reproduced=True)
+    else:
+        rec.discharged(f"{which}: accepted; {len(pairs)} requested elements equal those of the equivalent plainly written input", "confirmed")
+    rec.nontrivial = True
+    rec.sample = {"config": cfg}
+    return rec
+
+
+NAMES_ = ("H_tilde", "U", "U_adjoint")
 
 
 # ------------------------------------------------------------------------------------------------
